@@ -3,7 +3,8 @@
 Spec: spec/DecayCard.tla (instantiates spec/LSCoupling.tla for the (l,s) rule).
 TLC enumerates the card grammar as a state space (one state per card, the
 invariants WellFormed, SeqIsSet, ChainShape, KeptSubset, DroppedIff,
-FlatEquivalent, MirrorSameChains, NamesConsistent are evaluated per card) and
+FlatEquivalent, LineOrder, MirrorSameChains, NamesConsistent are evaluated per
+card as the conjunction Theorems) and
 emits every card with what it denotes: Expand, Chains, Kept, ParamNames, Free,
 Bounded.
 
@@ -39,34 +40,39 @@ INVARIANTS = [
     "KeptSubset",
     "DroppedIff",
     "FlatEquivalent",
+    "LineOrder",
     "MirrorSameChains",
     "NamesConsistent",
 ]
 
-ALL_SHAPES = ["s3_1", "s3_2", "s3_12", "s3_3", "s3_sh", "s4_c", "s4_c2", "s4_b", "s4_m"]
+ALL_SHAPES = ["s3_1", "s3_2", "s3_12", "s3_3", "s3_sh", "s3_e", "s4_c", "s4_c2", "s4_b", "s4_m"]
 
 TIERS = {
     "quick": dict(
-        Shapes=ALL_SHAPES,
+        Shapes=[x for x in ALL_SHAPES if x not in ("s3_12", "s4_b")],  # both subsumed by s3_3 / s3_sh / s4_m
         Schemes=["vec", "bar"],
         MesonJ2=[0, 2],
+        ScalarJ2=[0, 2],
         BaryonJ2=[1, 2],
         DecOpts=["pbreak", "l1"],
-        ParOpts=["float_mg_bnd"],
+        ParOpts=["float_g_bnd", "float_mg_bnd"],
         AllLines=False,
-        n_amp=700,
-        n_var=150,
+        n_amp=500,
+        n_var=100,
+        tlc_timeout=600,
     ),
     "thorough": dict(
         Shapes=ALL_SHAPES,
         Schemes=["vec", "sca", "bar"],
         MesonJ2=[0, 2, 4],
-        BaryonJ2=[1, 2, 3],
+        ScalarJ2=[0, 2],
+        BaryonJ2=[1, 2],
         DecOpts=["pbreak", "pball", "l0", "l1"],
-        ParOpts=["float_m", "float_g", "float_mg", "bnd", "float_mg_bnd"],
+        ParOpts=["float_m", "bnd", "float_g_bnd", "float_mg_bnd"],
         AllLines=True,
-        n_amp=9000,
-        n_var=2000,
+        n_amp=5000,
+        n_var=1000,
+        tlc_timeout=2400,
     ),
 }
 
@@ -75,17 +81,21 @@ def _tla_set(xs):
     return "{" + ", ".join(json.dumps(x) if isinstance(x, str) else str(x) for x in xs) + "}"
 
 
-def _cfg(ctx, t):
-    p = os.path.join(ctx.work, "decaycard_%s.cfg" % ctx.tier)
+def _cfg(ctx, t, separate=False):
+    """model-checking configuration; separate=True lists the theorems one by one (to name a failing one)"""
+    p = os.path.join(ctx.work, "decaycard_%s%s.cfg" % (ctx.tier, "_sep" if separate else ""))
     with open(p, "w") as f:
         f.write("CONSTANTS\n")
-        for k in ("Shapes", "Schemes", "MesonJ2", "BaryonJ2", "DecOpts", "ParOpts"):
+        for k in ("Shapes", "Schemes", "MesonJ2", "ScalarJ2", "BaryonJ2", "DecOpts", "ParOpts"):
             f.write("  %s = %s\n" % (k, _tla_set(t[k])))
         f.write("  AllLines = %s\n" % ("TRUE" if t["AllLines"] else "FALSE"))
         f.write("INIT Init\nNEXT Next\n")
-        for inv in INVARIANTS:
-            f.write("INVARIANT %s\n" % inv)
-        f.write("POSTCONDITION Post\nCHECK_DEADLOCK FALSE\n")
+        if separate:
+            for inv in INVARIANTS:
+                f.write("INVARIANT %s\n" % inv)
+        else:
+            f.write("INVARIANT Theorems\nPOSTCONDITION Post\n")
+        f.write("CHECK_DEADLOCK FALSE\n")
     return p
 
 
@@ -169,7 +179,7 @@ def slots_of(c):
     return dict(cd) if isinstance(cd, dict) else {}
 
 
-def make_config(c, alias=False, jstyle="float", flat=False, flat_single=False, include=None, res_split=None):
+def make_config(c, alias=False, jstyle="float", flat=False, flat_single=False, include=None, res_split=None, rev_lines=False, slots_here=True):
     """dict configuration of a card.
 
     flat: candidate lists written out (lines = Expand(card), no named lists)
@@ -177,11 +187,13 @@ def make_config(c, alias=False, jstyle="float", flat=False, flat_single=False, i
     stay in the main particle table (the rest lives in the included tables)
     """
     lines = c["expand"] if flat else c["lines"]
+    if rev_lines:
+        lines = list(reversed(lines))
     cfg = {"data": {"dat_order": list(c["finals"])}, "decay": decay_section(lines, flat_single)}
     part = {}
     part["$top"] = {c["top"]: particle_props(c, c["top"], alias, jstyle)}
     part["$finals"] = {n: particle_props(c, n, alias, jstyle) for n in c["finals"]}
-    if not flat:
+    if not flat and slots_here:
         for s, cl in slots_of(c).items():
             part[s] = list(cl)
     for r in resonances_of(c):
@@ -393,6 +405,12 @@ def variants(ctx, c, rng, serial):
     # $include through share_dict: all resonances live in the included table
     table = {r: particle_props(c, r) for r in res}
     out.append(("include_share_dict", make_config(c, include="res.yml", res_split={}), {"res.yml": copy.deepcopy(table)}))
+    # the named candidate lists live in the included table as well
+    table_s = dict(copy.deepcopy(table))
+    table_s.update({s: list(cl) for s, cl in slots_of(c).items()})
+    out.append(("include_share_dict_lists", make_config(c, include="all.yml", res_split={}, slots_here=False), {"all.yml": table_s}))
+    # lines written in the opposite order: only the reference chain may change
+    out.append(("line_order", make_config(c, rev_lines=True), None))
     # split definitions: main table keeps J/P (and overrides a wrong J,P of the include), include has the rest
     wrong = copy.deepcopy(table)
     split = {}
@@ -425,9 +443,11 @@ def variants(ctx, c, rng, serial):
 # --------------------------------------------------------------------------
 def run_tlc(ctx):
     t = TIERS[ctx.tier]
-    r = tlc.run("DecayCard", _cfg(ctx, t), work=ctx.work, workers=16, timeout=2400 if ctx.tier == "thorough" else 600)
+    r = tlc.run("DecayCard", _cfg(ctx, t), work=ctx.work, workers=16, timeout=t["tlc_timeout"])
     if r.violation:
-        raise tlc.MachineryError("DecayCard spec violates its own theorem %s\n%s" % (r.violation, r.trace[-1:] if r.trace else ""))
+        # Theorems is the conjunction of the individual theorems (one evaluation of Sem per card); name the failing one
+        r2 = tlc.run("DecayCard", _cfg(ctx, t, separate=True), work=ctx.work, workers=16, timeout=t["tlc_timeout"], coverage=False)
+        raise tlc.MachineryError("DecayCard spec violates its own theorem %s at %s" % (r2.violation or r.violation, (r2.trace or r.trace)[-1:]))
     ctx.tlc(r, "DecayCard %s" % ctx.tier, vacuity_actions=["Init"])
     if not r.out or "cards" not in r.out:
         raise tlc.MachineryError("DecayCard produced no card table")
@@ -542,6 +562,11 @@ def bind(ctx, tf_cards, ids, t, only=None):
             n_var += 1
             vkinds[name] = vkinds.get(name, 0) + 1
             dk = diff_keys(base, got)
+            if name == "line_order" and dk == ["free"]:
+                # which chain is the reference follows the written order; everything else must agree
+                tot = lambda p: frozenset(n for n in p["free"] if "_total_" in n)  # noqa: E731
+                if len(got["free"]) == len(base["free"]) and got["free"] - tot(got) == base["free"] - tot(base):
+                    dk = []
             if dk:
                 ctx.violation("%s:variant:%s:%s" % (cid, name, "+".join(dk)), {"variant": describe(got, dk), "expanded_form": describe(base, dk), "config": vcfg if isinstance(vcfg, dict) else open(vcfg).read(), "share_dict": share})
             else:
@@ -590,15 +615,56 @@ def bind(ctx, tf_cards, ids, t, only=None):
         dk = diff_keys(a, b) or diff_keys(first[i], b)
         if dk:
             ctx.violation("%s:twice:%s" % (cid, "+".join(dk)), {"first": describe(a, dk), "second": describe(b, dk)})
-    ctx.part("pass2_reload", cards=len(order2), identical=n_same, same_dict_twice=n_twice)
+    # interleaved construction: several loaders are built first, their amplitudes afterwards in the opposite order
+    n_inter = 0
+    inter = [i for i in order2 if i in amp_idx and "error" not in first[i] and "amp_error" not in first[i]][: max(40, len(amp_idx) // 5)]
+    for k in range(0, len(inter), 8):
+        batch = inter[k : k + 8]
+        loaders = []
+        with quiet():
+            from tf_pwa.config_loader import ConfigLoader
+
+            for i in batch:
+                try:
+                    loaders.append(ConfigLoader(make_config(tf_cards[i])))
+                except Exception as e:  # noqa: BLE001
+                    loaders.append(e)
+            for i, config in reversed(list(zip(batch, loaders))):
+                n_inter += 1
+                try:
+                    if isinstance(config, Exception):
+                        raise config
+                    a = config.get_amplitude()
+                    got = {"names": frozenset(a.get_params().keys()), "free": frozenset(config.vm.trainable_vars),
+                           "chains": frozenset(frozenset((str(d.core), tuple(sorted(str(o) for o in d.outs))) for d in ch) for ch in config.get_decay()),
+                           "bounds": {str(kk): tuple(None if x is None else float(x) for x in v) for kk, v in config.bound_dic.items()}}
+                except Exception as e:  # noqa: BLE001
+                    got = {"error": "%s: %s" % (type(e).__name__, e)}
+                dk = [kk for kk in got if got[kk] != first[i].get(kk)]
+                if dk:
+                    ctx.violation("%s:interleaved:%s" % (ids[i], "+".join(dk)), {"first_load": describe(first[i], dk), "interleaved": describe(got, dk)})
+    ctx.part("pass2_reload", cards=len(order2), identical=n_same, same_dict_twice=n_twice, interleaved_amplitudes=n_inter)
+    density_observation(ctx)
     ctx.log("pass 2: %d cards reloaded, %d identical" % (len(order2), n_same))
 
     # ---- evidence -----------------------------------------------------------
     ctx.cov["traces_validated_against_impl"] = len(order1)
-    for i in (amp_list[:3] if only is None else all_idx[:3]):
-        c = tf_cards[i]
-        ctx.sample({"card": ids[i], "config": make_config(c), "kept_chains": fmt_chains(exps[i]["chains"]),
-                    "dropped_by_selection_rule": len(c["chains"]) - len(c["kept"]), "n_names": len(c["names"]), "free": sorted(c["free"])[:6]})
+    pool = sorted(amp_idx) if only is None else all_idx
+    preds = [
+        lambda c: c["shape"] == "s3_sh" and c["trees"] > len(c["chains"]) and 0 < len(c["kept"]) < len(c["chains"]),
+        lambda c: c["shape"] == "s4_m" and 0 < len(c["kept"]) < len(c["chains"]),
+        lambda c: c["scheme"] == "bar" and c["opt"]["kind"] == "pbreak" and c["kept"],
+        lambda c: isinstance(c["bounded"], dict) and c["bounded"] and c["kept"],
+    ]
+    for pr in preds:
+        for i in pool:
+            c = tf_cards[i]
+            if pr(c):
+                ctx.sample({"card": ids[i], "config": make_config(c), "trees_from_top": c["trees"], "chains_with_declared_finals": len(c["chains"]),
+                            "kept_chains": fmt_chains(exps[i]["chains"]), "dropped_by_selection_rule": len(c["chains"]) - len(c["kept"]),
+                            "n_names": len(c["names"]), "free": sorted(c["free"]), "bounds": exps[i]["bounds"],
+                            "implementation_chain_set_equal": first[i].get("chains") == exps[i]["chains"]})
+                break
     ctx.cov["rule"] = (
         "every card of the grammar (shape x final-state scheme x J^P assignment of the resonances x one option site) is one TLC state; "
         "TLC checks %s per card and emits Expand/Chains/Kept/ParamNames/Free/Bounded; every card is loaded by ConfigLoader twice "
@@ -612,6 +678,54 @@ def bind(ctx, tf_cards, ids, t, only=None):
     ctx.assume("parameter VALUES (random initial values) are not compared; names, fixed/free sets, bound and gauss dictionaries are")
     ctx.assume("the first kept chain in written order is the reference chain (constrains.decay.fix_chain_idx = 0 as in config.sample.yml)")
     ctx.assume("exported configuration is required to reproduce chains and J, P only (the property's wording), not parameter names or l_list")
+
+
+JUDGE_DENSITY = False  # the property lists chains, parameter names and constraints; the density is observed only
+
+
+def density_observation(ctx):
+    """Same particle names, other spin of the top particle, one process: does the second model's density
+    depend on the first?  (functools.lru_cache on HelicityDecay._get_cg_matrix is keyed by particle *names*.)
+    Outside the wording of C19 (chains, names, constraints) -> recorded, not judged, unless JUDGE_DENSITY."""
+    import numpy as np
+    from tf_pwa.config_loader import ConfigLoader
+    from tf_pwa.phasespace import PhaseSpaceGenerator
+
+    def cfg(ja, names):
+        r, b, c, d = names
+        return {
+            "data": {"dat_order": [b, c, d]},
+            "decay": {"A": [[r, d]], r: [b, c]},
+            "particle": {"$top": {"A": {"J": ja, "P": -1, "mass": 3.0}},
+                         "$finals": {b: {"J": 0, "P": -1, "mass": 0.5}, c: {"J": 0, "P": -1, "mass": 0.5}, d: {"J": 0, "P": -1, "mass": 0.14}},
+                         r: {"J": 1, "P": -1, "mass": 1.5, "width": 0.1}},
+            "constrains": {"decay": {"fix_chain_idx": 0, "fix_chain_val": 1.0}},
+        }
+
+    p4 = [np.array(x) for x in PhaseSpaceGenerator(3.0, [0.5, 0.5, 0.14]).generate(6)]
+
+    def dens(ja, names):
+        with quiet():
+            c = ConfigLoader(cfg(ja, names))
+            return np.array(c.get_amplitude()(c.data.cal_angle(p4)))
+
+    try:
+        ref = dens(1, ("Qr", "Qb", "Qc", "Qd"))  # names never used before in this process
+        dens(0, ("Pr", "Pb", "Pc", "Pd"))
+        after = dens(1, ("Pr", "Pb", "Pc", "Pd"))  # same card as ref up to renaming, loaded after its J=0 sibling
+    except Exception as e:  # noqa: BLE001
+        ctx.notes.append("density observation not computable: %s" % e)
+        return
+    same = bool(np.allclose(ref, after, rtol=1e-8, atol=1e-12))
+    ctx.part("observation_outside_statement", density_independent_of_earlier_loads=same)
+    if not same:
+        ctx.notes.append(
+            "observation (not judged): the density of a card loaded after a card with the same particle names and another "
+            "spin differs from the density of the same card under fresh names (max rel. deviation %.3g): "
+            "HelicityDecay._get_cg_matrix is cached by particle names across loads" % float(np.max(np.abs(after - ref) / np.abs(ref)))
+        )
+        if JUDGE_DENSITY:
+            ctx.violation("density:same_names_other_spin", {"fresh_names": ref.tolist(), "after_sibling": after.tolist()})
 
 
 def replay(ctx, path):
